@@ -391,6 +391,25 @@ struct Fixture {
             if(t.getNbParticleGroups() != 0) out.add(W+"structure:groups-for-empty-input", "particle groups exist for an empty input");
             return;
         }
+        // the leaves of the tree are exactly the occupied ones: every input particle has a leaf whose closed box contains it,
+        // and every leaf contains at least one input particle (positions on a cell face admit both neighbours)
+        {
+            const long cellsPerDim = 1L << (spec.height-1);
+            auto admits = [&](const Coord& leaf, const Coord& plat){
+                for(int d = 0 ; d < Dim ; ++d) if(plat[d] < 4*leaf[d] || plat[d] > 4*leaf[d]+4 || leaf[d] < 0 || leaf[d] >= cellsPerDim) return false;
+                return true;
+            };
+            for(size_t i = 0 ; i < particleLat.size() ; ++i){
+                bool covered = false;
+                for(const auto& c : leafCoords) if(admits(c, particleLat[i])){ covered = true; break; }
+                if(!covered) out.add(W+"structure:occupied-leaf-missing", "no leaf of the tree contains particle " + std::to_string(i));
+            }
+            for(const auto& c : leafCoords){
+                bool used = false;
+                for(const auto& pl : particleLat) if(admits(c, pl)){ used = true; break; }
+                if(!used) out.add(W+"structure:leaf-without-particle", "leaf " + vref::coordStr(c, Dim) + " contains no input particle");
+            }
+        }
         // ancestor closure by coordinates (definition), kept as coordinate sets per level
         std::vector<std::set<std::vector<long>>> ref(spec.height);
         for(const auto& c : leafCoords) ref[spec.height-1].insert(std::vector<long>(c.begin(), c.begin()+Dim));
